@@ -8,10 +8,12 @@ import (
 	"strings"
 
 	"go.opentelemetry.io/collector/consumer"
+	"go.opentelemetry.io/collector/consumer/xconsumer"
 	"go.opentelemetry.io/collector/internal/fanoutconsumer"
 	"go.opentelemetry.io/collector/pdata/pcommon"
 	"go.opentelemetry.io/collector/pdata/plog"
 	"go.opentelemetry.io/collector/pdata/pmetric"
+	"go.opentelemetry.io/collector/pdata/pprofile"
 	"go.opentelemetry.io/collector/pdata/ptrace"
 	"verif.local/simkit"
 	"verif.local/simkit/gen"
@@ -30,6 +32,8 @@ func (p pd) gen(tp *simkit.Tape, ids *gen.IDs) any {
 		return gen.Logs(tp, ids, sh)
 	case sigTraces:
 		return gen.Traces(tp, ids, sh)
+	case sigProfiles:
+		return gen.Profiles(tp, ids, sh)
 	}
 	return gen.Metrics(tp, ids, sh)
 }
@@ -42,6 +46,8 @@ func (p pd) bytes(x any) []byte {
 		b, err = (&plog.ProtoMarshaler{}).MarshalLogs(x.(plog.Logs))
 	case sigTraces:
 		b, err = (&ptrace.ProtoMarshaler{}).MarshalTraces(x.(ptrace.Traces))
+	case sigProfiles:
+		b, err = (&pprofile.ProtoMarshaler{}).MarshalProfiles(x.(pprofile.Profiles))
 	default:
 		b, err = (&pmetric.ProtoMarshaler{}).MarshalMetrics(x.(pmetric.Metrics))
 	}
@@ -57,6 +63,8 @@ func (p pd) markReadOnly(x any) {
 		x.(plog.Logs).MarkReadOnly()
 	case sigTraces:
 		x.(ptrace.Traces).MarkReadOnly()
+	case sigProfiles:
+		x.(pprofile.Profiles).MarkReadOnly()
 	default:
 		x.(pmetric.Metrics).MarkReadOnly()
 	}
@@ -68,6 +76,8 @@ func (p pd) isReadOnly(x any) bool {
 		return x.(plog.Logs).IsReadOnly()
 	case sigTraces:
 		return x.(ptrace.Traces).IsReadOnly()
+	case sigProfiles:
+		return x.(pprofile.Profiles).IsReadOnly()
 	}
 	return x.(pmetric.Metrics).IsReadOnly()
 }
@@ -133,6 +143,36 @@ func (p pd) mutate(x any, witness string, kind int) {
 				td.ResourceSpans().AppendEmpty().SetSchemaUrl(witness)
 			}
 		}
+	case sigProfiles:
+		pf := x.(pprofile.Profiles)
+		switch kind {
+		case 0:
+			pf.ResourceProfiles().AppendEmpty().ScopeProfiles().AppendEmpty().Profiles().AppendEmpty().SetOriginalPayloadFormat(witness)
+		case 1:
+			if pf.ResourceProfiles().Len() > 0 {
+				pf.ResourceProfiles().At(0).Resource().Attributes().PutStr("mut", witness)
+			} else {
+				pf.ResourceProfiles().AppendEmpty().Resource().Attributes().PutStr("mut", witness)
+			}
+		case 2:
+			pf.ResourceProfiles().RemoveIf(func(pprofile.ResourceProfiles) bool { return true })
+			pf.ResourceProfiles().AppendEmpty().SetSchemaUrl(witness)
+		default:
+			n := 0
+			for i := 0; i < pf.ResourceProfiles().Len(); i++ {
+				for j := 0; j < pf.ResourceProfiles().At(i).ScopeProfiles().Len(); j++ {
+					ps := pf.ResourceProfiles().At(i).ScopeProfiles().At(j).Profiles()
+					for k := 0; k < ps.Len(); k++ {
+						ps.At(k).SetOriginalPayloadFormat(witness)
+						ps.At(k).StringTable().Append(witness)
+						n++
+					}
+				}
+			}
+			if n == 0 {
+				pf.ResourceProfiles().AppendEmpty().SetSchemaUrl(witness)
+			}
+		}
 	default:
 		md := x.(pmetric.Metrics)
 		switch kind {
@@ -195,7 +235,7 @@ func runC06(r *simkit.Run) {
 		return
 	}
 	tp := r.Tape
-	p := pd{sig: signals[tp.Draw(3)]}
+	p := pd{sig: drawSignal(tp)}
 	n := tp.Range(1, 5)
 	cs := make([]*c06Consumer, n)
 	var desc []string
@@ -250,11 +290,20 @@ func runC06(r *simkit.Run) {
 		c.held = x
 		c.atCall = p.bytes(x)
 		w := fmt.Sprintf("WITNESS-%d", c.n)
+		// a consumer that declared MutatesData must be able to mutate what it was given, during the call and later
+		declared := func() {
+			defer func() {
+				if e := recover(); e != nil {
+					r.Failf("isolation", "declared-mutator-got-read-only-data", "consumer %d (%s) declares MutatesData but its mutation panicked: %v", c.n, desc[c.n], e)
+				}
+			}()
+			p.mutate(x, w, c.mutKind)
+		}
 		switch {
 		case c.mutates && !c.async:
-			p.mutate(x, w, c.mutKind)
+			declared()
 		case c.mutates && c.async:
-			later = append(later, func() { p.mutate(x, w, c.mutKind) })
+			later = append(later, declared)
 		case c.undeclared:
 			func() {
 				defer func() {
@@ -289,6 +338,14 @@ func runC06(r *simkit.Run) {
 			l = append(l, x)
 		}
 		fan = anyConsumer{sig: p.sig, t: fanoutconsumer.NewTraces(l)}
+	case sigProfiles:
+		var l []xconsumer.Profiles
+		for _, c := range cs {
+			c := c
+			x, _ := xconsumer.NewProfiles(func(_ context.Context, pf pprofile.Profiles) error { return handle(c, pf) }, consumer.WithCapabilities(consumer.Capabilities{MutatesData: c.mutates}))
+			l = append(l, x)
+		}
+		fan = anyConsumer{sig: p.sig, p: fanoutconsumer.NewProfiles(l)}
 	default:
 		var l []consumer.Metrics
 		for _, c := range cs {
@@ -361,7 +418,7 @@ func runC06(r *simkit.Run) {
 			}
 		}
 	}
-	r.State(fmt.Sprintf("n=%d ro=%d inputRO=%v", n, nRO, inputRO), "consume")
+	r.State(fmt.Sprintf("%s n=%d ro=%d inputRO=%v", p.sig, n, nRO, inputRO), "consume")
 }
 
 func witnessesIn(b []byte) string {
@@ -377,7 +434,7 @@ func witnessesIn(b []byte) string {
 
 var HarnessC06 = simkit.Harness{
 	Prop: "C06", Name: "svc/c06", Run: runC06, StepTimeout: 20e9, HashInsensitive: true,
-	Real: append([]string{"internal/fanoutconsumer (logs, traces, metrics)", "pdata read-only state and deep copy", "service/internal/capabilityconsumer and the graph's capabilities / fan-out nodes (graph mode)"}, svcReal...),
+	Real: append([]string{"internal/fanoutconsumer (logs, traces, metrics, profiles)", "pdata read-only state and deep copy", "service/internal/capabilityconsumer and the graph's capabilities / fan-out nodes (graph mode)"}, svcReal...),
 	Stub: append([]string{"consumers with a declared capability, an injected failure and a mutation program run during the call, as a later task, or undeclared"}, svcStub...),
-	Rule: "one run = direct mode: a fan-out over 1-5 simulated consumers with a tape-drawn capability vector, read-only or mutable generated input, per-consumer failure and mutation program (4 kinds; synchronous, as a later task in tape order, or undeclared by a non-mutating consumer); or graph mode: a generated service topology (as C09) whose mutating processors and mutating exporters really mutate, with delivery trails and each pipeline's advertised capability compared with the configuration; distinct = distinct event-log hash; non-trivial = more than one consumer or an asynchronous mutation / a payload with >1 delivery. Profiles are not generated",
+	Rule: "one run = direct mode: a fan-out over 1-5 simulated consumers with a tape-drawn capability vector, read-only or mutable generated input, per-consumer failure and mutation program (4 kinds; synchronous, as a later task in tape order, or undeclared by a non-mutating consumer); or graph mode: a generated service topology (as C09) whose mutating processors and mutating exporters really mutate, with delivery trails and each pipeline's advertised capability compared with the configuration; distinct = distinct event-log hash; non-trivial = more than one consumer or an asynchronous mutation / a payload with >1 delivery.",
 }
